@@ -23,10 +23,31 @@ operands are `['n', i]` (value of node i) or `['c', number]`; node kinds:
     list   {'k','items'}                      [..]  (c02: multichannel expansion)
     sink   {'k','cls','m','bus','chans'|'args'}      Out.ar(bus, [chans]) ...
 
-`render(program)` gives the Python source of the graph function, `make_func`
-executes it in a namespace (so any process can rebuild the same function, C20),
-`eval_source(program, rho)` evaluates the *shadow DAG* under a random
-interpretation rho (module docstring of vf/props/C01.py explains the oracle).
+API (everything except namespace/make_func/build is sc3-free):
+
+    gen_program(rng, name=...)            C01 domain (value semantics defined)
+    gen_program_c02(rng, kind, name=...)  C02 domain (structure only)
+    render(program) -> str                Python source of `def graph(...)`
+    synthdef_kwargs(program) -> dict      rates= / variants= for SynthDef
+    script(program) -> str                stand-alone witness script
+    make_func(program) / build(program)   rebuild the function / the SynthDef in
+                                          *this* process (json.loads(json.dumps(
+                                          program)) builds the same thing: C20)
+    SourceEval(program, rho)              shadow DAG under interpretation rho
+    analyse(program)                      per-node rates / semantic constancy
+
+Domain rules the generator enforces (soundness of the C01 oracle):
+  * constants are float32-exact dyadic rationals (the constant table loses
+    nothing); number-with-number arithmetic never happens: every operator has
+    at least one operand that is certainly a unit generator, where "certainly"
+    means *not semantically constant* (its value differs under independent
+    interpretations, so no ring identity can turn it into a Python number);
+    method-style operators and comparisons get such an operand as receiver;
+  * rate sensitive positions (audio Out channels, first input of filters,
+    SendTrig, Pan2) only get rate-stable signals: the rate by the max rule
+    equals the highest rate among the leaves the value really depends on, so
+    absorbed operands (`x*0 + k`) can not change the rate the library sees;
+  * unit inputs never exceed the unit's rate (except A2K).
 """
 
 import hashlib
